@@ -2,6 +2,7 @@ package main
 
 import (
 	"fmt"
+	"os"
 	"go/types"
 	"strings"
 
@@ -185,7 +186,31 @@ func (ex *Exec) doAppend(st *State, a, b SliceV, elem types.Type) []Outcome {
 				}
 				ne[j] = m
 			}
-			ex.replaceBacking(s, a, &ArrayV{e: ne})
+			nArr := &ArrayV{e: ne}
+			if arr.fn != nil && b.obj != 0 {
+				if bArr := ex.backing(s, b); bArr.fn != nil || true {
+					oldfn, bOff, bLen := arr.fn, b.off, b.len
+					nArr.fn = func(i *Term) *Term {
+						rel := tt.Sub(i, start)
+						in := tt.BAnd(tt.Sle(start, i), tt.Slt(rel, bLen))
+						bi := tt.Add(bOff, rel)
+						var bv *Term
+						if bi.IsConst() {
+							k := int(sext(bi.c, 64))
+							if k >= 0 && k < len(bArr.e) {
+								bv, _ = bArr.e[k].(*Term)
+							}
+						} else if v, ok := ex.symRead(bArr, bi, nil).(*Term); ok {
+							bv = v
+						}
+						if bv == nil {
+							return oldfn(i)
+						}
+						return tt.Ite(in, bv, oldfn(i))
+					}
+				}
+			}
+			ex.replaceBacking(s, a, nArr)
 		}
 		outs = append(outs, Outcome{st: s, ret: SliceV{obj: a.obj, pre: a.pre, off: a.off, len: tt.Add(a.len, b.len), cap: a.cap}})
 	}
@@ -200,15 +225,18 @@ func (ex *Exec) doAppend(st *State, a, b SliceV, elem types.Type) []Outcome {
 		} else {
 			na, nb := ex.capBound(s, a), ex.capBound(s, b)
 			n = na + nb
-			// capacity chosen by the runtime: unknown but at least the new length
-			capT = tt.Fresh("cap", KBV, 64)
-			ex.assume(s, tt.Sle(newLen, capT))
-			ex.assume(s, tt.Sle(capT, tt.BV(uint64(n), 64)))
-			ex.assume(s, tt.Sle(tt.BV(0, 64), newLen))
+			// Capacity slack chosen by the runtime is not modelled for appends of
+			// symbolic length: cap == len, i.e. the next append reallocates. Content
+			// and length are unaffected; only aliasing through spare capacity is.
+			capT = newLen
+			ex.assumes["append with symbolic length: result capacity modelled as equal to its length (no spare capacity)"] = true
 		}
 		e := make([]Value, n)
 		z := ex.zero(elem)
 		na, nb := ex.capBound(s, a), ex.capBound(s, b)
+		if os.Getenv("VERIF_DEBUG") != "" {
+			fmt.Fprintf(os.Stderr, "append grow n=%d na=%d nb=%d alenconst=%v terms=%d\n", n, na, nb, a.len.IsConst(), tt.next)
+		}
 		if a.len.IsConst() {
 			al := int(a.len.c)
 			for k := 0; k < n; k++ {
